@@ -37,6 +37,8 @@ def run(ctx):
     r134(ctx, m)
     r135(ctx)
     r138(ctx)
+    from . import c04 as _c04
+    _c04.r41(ctx, ctx.repo['writer'])
     from . import findings2 as _f2
     _f2.row_filter_nulls(ctx, 'R13.10')
     # row-level filtering runs on the row groups that survive pruning: the pruning rules are shared with C05
